@@ -90,6 +90,14 @@ def main():
             r.refs[b"refs/heads/main"] = ids["j"]
             r.refs[b"refs/tags/v1"] = t.id
             r.refs[b"refs/heads/lonely"] = ids["r1"]
+        elif shape == "octopus":
+            ids["c1"] = commit(r, [], b"c1")
+            for i in (1, 2, 3, 4):
+                ids[f"t{i}"] = commit(r, [ids["c1"]], b"t%d" % i)
+            ids["o"] = commit(r, [ids["t1"], ids["t2"], ids["t3"], ids["t4"]], b"octopus")
+            ids["top"] = commit(r, [ids["o"]], b"top")
+            r.refs[b"refs/heads/main"] = ids["top"]
+            r.refs[b"refs/heads/t1"] = ids["t1"]
         r.refs.set_symbolic_ref(b"HEAD", b"refs/heads/main")
         return ids
 
@@ -157,6 +165,7 @@ def main():
             p = os.path.join(path, ".git", rel)
             if os.path.exists(p):
                 os.remove(p)
+        shutil.rmtree(os.path.join(path, ".git", "objects", "info", "commit-graphs"), ignore_errors=True)
         pd = os.path.join(path, ".git", "objects", "pack")
         for fn in os.listdir(pd):
             if fn.endswith(".bitmap") or fn.endswith(".rev"):
@@ -181,6 +190,7 @@ def main():
                 q(f"contains_packed|loose:{name}", lambda sha=sha: bool(st.contains_packed(sha) or st.contains_loose(sha)))
             q("iter", lambda: sorted(st))
             q("refs", lambda: sorted(r.refs.as_dict().items()))
+            q("peeled", lambda: sorted((k, r.get_peeled(k)) for k in r.refs.as_dict() if k != b"HEAD"))
             live = [c for c in commits if out.get(f"contains:{c}") is True]
             pp = r.parents_provider()
             for c in live:
@@ -197,7 +207,7 @@ def main():
             r.close()
         return out
 
-    shapes = ["chain", "merge", "roots+tag"]
+    shapes = ["chain", "merge", "roots+tag", "octopus"]
     subsets = [s for k in range(0, len(ACCEL) + 1) for s in itertools.combinations(ACCEL, k)]
     stale = ["nothing", "new-loose", "new-pack", "repack", "delete-ref+prune", "foreign-files"]
     if tier == "quick":
@@ -251,9 +261,93 @@ def main():
                             fail("an answer changes with (stale) acceleration data present", dict(what, query=k, without=repr(a0[k])[:200], with_files=repr(a1.get(k))[:200], differing_queries=len(diff)))
                         shutil.rmtree(p, ignore_errors=True)
                         shutil.rmtree(bare, ignore_errors=True)
+        # ---- accelerators written by C git: a split commit-graph chain (two layers), a git-written midx and bitmap
+        import subprocess
+        for shape in shapes:
+            cases += 1
+            p = os.path.join(d, f"git_{shape}")
+            os.mkdir(p)
+            r = Repo.init(p)
+            what = {"history": shape, "accelerators": ["C git: commit-graph --split (2 layers), multi-pack-index, repack -b"], "stale_by": "new commits between the layers and after"}
+            try:
+                ids = history(r, shape)
+                r.object_store.pack_loose_objects()
+                r.close()
+                ok = subprocess.run(["git", "-C", p, "commit-graph", "write", "--reachable", "--split"], capture_output=True).returncode == 0
+                r = Repo(p)
+                new = go_stale(r, ids, "new-pack", other)
+                r.close()
+                ok = ok and subprocess.run(["git", "-C", p, "commit-graph", "write", "--reachable", "--split=no-merge"], capture_output=True).returncode == 0
+                ok = ok and subprocess.run(["git", "-C", p, "multi-pack-index", "write"], capture_output=True).returncode == 0
+                r = Repo(p)
+                new.update(go_stale(r, dict(ids, **new), "new-loose", other))
+                universe = dict(ids, **new)
+                r.close()
+                if not ok:
+                    fail("C git could not write its accelerators (harness)", what)
+                    continue
+                commits = [k for k in universe if "." not in k and k != "tag"]
+                bare = p + "_bare"
+                shutil.copytree(p, bare, symlinks=True)
+                strip_accel(bare)
+                a1 = answers(p, universe, commits)
+                a0 = answers(bare, universe, commits)
+                diff = [k for k in a0 if a0[k] != a1.get(k)]
+                if diff:
+                    fail("an answer changes with C git-written acceleration data present", dict(what, query=diff[0], without=repr(a0[diff[0]])[:200], with_files=repr(a1.get(diff[0]))[:200], differing_queries=len(diff)))
+            except Exception as e:  # noqa: BLE001
+                fail("C git accelerator scenario raised", dict(what, exc=repr(e)[:200]))
+        # ---- packed-refs: the same ref operations on a repository whose refs were packed first and on a byte copy that never packed
+        for shape in shapes:
+            base = os.path.join(d, f"refs_{shape}")
+            os.mkdir(base)
+            r = Repo.init(base)
+            ids = history(r, shape)
+            extra = commit(r, [r.refs[b"refs/heads/main"]], b"extra")
+            r.close()
+            refnames = [k for k in Repo(base).refs.as_dict() if k != b"HEAD"]
+            ops_all = []
+            for nm in refnames[:3]:
+                ops_all += [("set", nm, extra), ("del", nm), ("set+del", nm, extra), ("set+del+add", nm, extra)]
+            ops_all += [("add", b"refs/heads/brand-new", extra)]
+            for op in ops_all:
+                cases += 1
+                pa, pb = base + "_packed", base + "_loose"
+                for q_ in (pa, pb):
+                    shutil.rmtree(q_, ignore_errors=True)
+                    shutil.copytree(base, q_, symlinks=True)
+                ra, rb = Repo(pa), Repo(pb)
+                try:
+                    ra.refs.pack_refs(all=True)
+                    for rr in (ra, rb):
+                        if op[0].startswith("set"):
+                            rr.refs[op[1]] = op[2]
+                        if "del" in op[0]:
+                            del rr.refs[op[1]]
+                        if op[0].endswith("add"):
+                            rr.refs.add_if_new(op[1], op[2])
+                        if op[0] == "add":
+                            rr.refs.add_if_new(op[1], op[2])
+                    outs = []
+                    for q_ in (pa, pb):
+                        fresh = Repo(q_)
+                        outs.append((sorted(fresh.refs.as_dict().items()), sorted((k, fresh.get_peeled(k)) for k in fresh.refs.as_dict() if k != b"HEAD")))
+                        fresh.close()
+                    if outs[0][0] == outs[1][0] and outs[0][1] != outs[1][1]:
+                        # same ref values, different PEELED values: the known finding (packed-refs written with a "peeled" header but
+                        # without "^" lines); kept under its own label so that any difference in ref values is still reported
+                        if not any(f["what"].startswith("peeled value of a tag ref") for f in failures):
+                            fail("peeled value of a tag ref differs once refs are packed (get_peeled)", {"history": shape, "operation": [op[0], op[1].decode()],
+                                                                                                         "packed": repr([x for x in outs[0][1] if x not in outs[1][1]])[:200], "never_packed": repr([x for x in outs[1][1] if x not in outs[0][1]])[:200]})
+                    elif outs[0] != outs[1]:
+                        fail("ref values differ between a repository with packed refs and one that never packed", {"history": shape, "operation": [op[0], op[1].decode()],
+                                                                                                                   "packed": repr(outs[0])[:300], "never_packed": repr(outs[1])[:300]})
+                finally:
+                    ra.close()
+                    rb.close()
     print(json.dumps({"name": "c14_accel", "function": "dulwich/object_store.py (midx, commit-graph, bitmaps), commit_graph.py, midx.py, bitmap.py, refs.py packed-refs", "cases": cases,
                       "exhaustive": True, "bound": f"{len(shapes)} histories x {len(subsets)} accelerator subsets x {len(stale)} staleness patterns"
-                      + (" x pack index versions 1,2,3 when fresh" if tier == "thorough" else " (subsets of size 1 and 4)") + "; ~40-120 queries per repository compared with an accelerator-free byte copy",
+                      + (" x pack index versions 1,2,3 when fresh" if tier == "thorough" else " (subsets of size 1 and 4)") + "; ~40-120 queries per repository compared with an accelerator-free byte copy; C git-written split commit-graph chain + midx per history; ref operation sequences on packed vs never-packed copies",
                       "failures": failures, "secs": round(time.time() - t0, 2)}))
 
 
